@@ -613,3 +613,7 @@ Qed.
 Theorem lgraph_links_iff w : In w (graph_links K st G) <-> In w SL.
 Proof. split; [apply lgraph_links_sound | apply lgraph_links_complete]. Qed.
 End GLinks.
+Print Assumptions G_rvalid_loose.
+Print Assumptions resolves_iff.
+Print Assumptions pruned_lgraph_ok.
+Print Assumptions lgraph_links_iff.
